@@ -418,6 +418,13 @@ fn search_c11(budget: usize) {
         let sa = segment(&mut rng, &a, max, false);
         let first = drive(&mut c, &mut tx, &sa);
         if first.error.is_none() { tried += 1; continue; }
+        // "no part of the rejected input is retained": that includes an interim response queued on its behalf
+        let ra = reference(&a, limit);
+        if ra.error.is_some() && first.delivered == ra.delivered && first.continues.len() > ra.continues.len() {
+            found("C11", format!("A reads: {} (error {:?})", show_segs(&sa), first.error),
+                  format!("{} interim 100-continue responses left queued by the rejected input", first.continues.len() - ra.continues.len()),
+                  format!("{} (those of the requests delivered before the error)", ra.continues.len()));
+        }
         let mb = [1usize, 5, 1024][rng.below(3)];
         let sb = segment(&mut rng, &b, mb, false);
         let after = drive(&mut c, &mut tx, &sb);
